@@ -104,6 +104,9 @@ func (e *Engine) externalGlobal(g *ssa.Global) Value {
 		}
 		return string(b)
 	}
+	if v := e.smfGlobal(key); v != nil {
+		return v
+	}
 	switch key {
 	case "os.Stdout":
 		return &hostObj{tag: "os.File", v: "stdout"}
@@ -305,6 +308,19 @@ func registerIntrinsics(e *Engine) {
 		return e.ite(c, t, args[1], args[2])
 	}
 	r[vfPkg+".Run"] = noop
+	r[vfPkg+".Summarise"] = func(e *Engine, fr *frame, args []Value, site ssa.CallInstruction) Value {
+		if e.summarise == nil {
+			e.summarise = map[string]bool{}
+		}
+		name := mustStr(e, args[0], "Summarise name")
+		found := false
+		for _, p := range e.prog.SSA.AllPackages() {
+			_ = p
+		}
+		e.summarise[name] = true
+		_ = found
+		return nil
+	}
 	r[vfPkg+".Param"] = func(e *Engine, fr *frame, args []Value, site ssa.CallInstruction) Value {
 		name := mustStr(e, args[0], "Param name")
 		if v, ok := e.cfg.Params[name]; ok {
